@@ -24,6 +24,10 @@ package ringbuffer
 //@ lockinv[C14.inv] ringInv(rb)
 //@ atomicinv[C14.len.nonneg] rb.len >= 0
 
+// One entry in the callers' effect log per element pushed (what is pushed is
+// asserted at the call site; that it is pushed exactly once is this event).
+//@ event RingPush(rb Ref)
+
 //@ func New(size)
 //@   props C14
 //@   constructs
@@ -36,6 +40,8 @@ package ringbuffer
 //@   props C14 C01 C03
 //@   requires rb != nil
 //@   modifies rb.content, rb.len, rb.content.*, elements(rb.content.items)
+//@   ghost at call AddInt64#1: emit RingPush(rb)
+//@   emits RingPush(rb)
 //@   atunlock[C14.push.len] rb.len == old(rb.len) + 1
 //@   ensures[C14.push.len-at-return] rb.len == old(rb.len) + 1
 //@   atunlock[C14.push.last] viewat(rb, old(rb.len)) == item
